@@ -2,6 +2,7 @@ package main
 
 import (
 	"fmt"
+	"go/token"
 	"go/types"
 	"os"
 	"strings"
@@ -68,6 +69,7 @@ func checkC18(c *Ctx) {
 	c.Rule("C18.1", "Roland-style frame: Parse(SysEx(v)) succeeds on every partition and returns v (ids, address, payload of any length >= 1 / request size); builder layout F0 id dev model 11|12 addr x3 (size x3 | data) checksum F7", 4)
 	c.Rule("C18.2", "checksum coverage: builder and parser apply the same checksum function to the same fields (address + payload/size); every accepting path of the parser has compared the checksum byte with it", 3)
 	c.Rule("C18.4", "zero sum: for every residue class of the covered bytes' sum (partition by sum mod 128, the multiple of 128 symbolic; the class reached through the payload sum, through each address byte and through each size byte) the checksum c is a constant with 0 <= c <= 127 and sum + c = 0 mod 128", 7)
+	c.Rule("C18.5", "the helpers do not write into the caller's memory: with the payload handed in as a slice that has spare capacity (a window of a larger buffer), Checksum and SysEx leave the bytes behind the window untouched — an append onto the caller's slice would overwrite them (the next chunk of a dump, the F7 of the message being parsed)", 2)
 	c.Rule("C18.3", "machine control: locate and plain commands parse back to the value they were built from (device ids 1..127, commands below 0x40)", 2)
 
 	// ---------------- Roland frame
@@ -252,6 +254,46 @@ func checkC18(c *Ctx) {
 		checksumArithmetic(c, mt, cks)
 	}
 
+	// ---------------- C18.5 caller memory
+	if mt != nil && cks != nil && build != nil {
+		for _, fn := range []*ssa.Function{cks, build} {
+			ex := NewExec(p)
+			st := ex.NewState()
+			mv := ex.zeroOf(mt).(*StructV)
+			for i := 0; i < mv.T.NumFields(); i++ {
+				if _, _, isInt := intTypeInfo(mv.T.Field(i).Type()); isInt {
+					mv.Fields[i] = ex.topOf(st, mv.T.Field(i).Type(), mv.T.Field(i).Name())
+				}
+			}
+			mv.Fields[fieldIndex(mv.T, "Address")] = &ArrayV{Elem: types.Typ[types.Uint8], Segs: []Seg{{Elems: []Val{ex.byteSym("a0"), ex.byteSym("a1"), ex.byteSym("a2")}}}}
+			mv.Fields[fieldIndex(mv.T, "InfoRequest")] = &BoolV{Known: true, Val: false}
+			// the payload: a window [0:L) of a buffer that continues with four guard bytes
+			L := st.freshInt("paylen", 64, true)
+			st.refineSym(L.T.Syms[0], 1, 512)
+			guards := []Val{ex.byteSym("g0"), ex.byteSym("g1"), ex.byteSym("g2"), ex.byteSym("g3")}
+			bid := ex.newObj(st, &ArrayV{Elem: types.Typ[types.Uint8], Segs: []Seg{{Run: &Run{Src: "dump", Off: constTerm(0), Len: L.T}}, {Elems: guards}}}, nil)
+			capV := st.Arith(token.ADD, L, mkConst(4, 64, true), "")
+			mv.Fields[fieldIndex(mv.T, "SendingData")] = &SliceV{Obj: bid, Off: mkConst(0, 64, true), Len: L, Cap: capV}
+			ok, why, n := true, "", 0
+			for _, o := range ex.Call(st, fn, []Val{mv}, nil) {
+				n++
+				if o.Panic {
+					ok, why = false, o.Msg
+					continue
+				}
+				tail := &SliceV{Obj: bid, Off: L, Len: mkConst(4, 64, true), Cap: mkConst(4, 64, true)}
+				got, okG := ex.sliceElems(o.St, tail)
+				same := okG && len(got) == 4
+				for i := 0; same && i < 4; i++ {
+					same = o.St.sameVal(got[i], guards[i])
+				}
+				if !same {
+					ok, why = false, FuncName(fn)+" changes the bytes that follow the payload in the caller's buffer (it appends onto the caller's slice): the next window of a chunked dump, or the end byte of a message being parsed, is overwritten"
+				}
+			}
+			c.Check(ok && n > 0, "C18.5", "caller memory behind the payload after "+FuncName(fn), p.Pos(fn.Pos()), "payload = window with spare capacity: the four bytes behind it are unchanged on every path", why)
+		}
+	}
 	// ---------------- MMC
 	gt := p.namedType("mmc", "GoTo")
 	if gt == nil {
@@ -276,7 +318,7 @@ func checkC18(c *Ctx) {
 					why = o.Msg
 					continue
 				}
-				dst := ex.newZeroObject(o.St, gt)
+				dst := ex.newStaleObject(o.St, gt)
 				for _, po := range ex.Call(o.St, pr, []Val{dst, o.Ret[0]}, nil) {
 					n++
 					ev, _ := po.Ret[0].(*IfaceV)
@@ -320,7 +362,7 @@ func checkC18(c *Ctx) {
 					why = o.Msg
 					continue
 				}
-				dst := ex.newZeroObject(o.St, mm)
+				dst := ex.newStaleObject(o.St, mm)
 				for _, po := range ex.Call(o.St, pr, []Val{dst, o.Ret[0]}, nil) {
 					n++
 					ev, _ := po.Ret[0].(*IfaceV)
